@@ -133,6 +133,11 @@ class AObj:
         return f"<{self._cls} {nm!r}>" if nm is not None else f"<{self._cls}>"
 
 
+class Native:
+    """Marker base: python objects standing for external library values (XML elements, parse-tree
+    contexts). The evaluator uses their python protocol (attributes, call, iteration, index, len)."""
+
+
 class ClassRef:
     def __init__(self, ci: ClassInfo) -> None:
         self.ci = ci
@@ -363,6 +368,38 @@ class Interp:
                 except _Continue:
                     continue
             return
+        if isinstance(st, ast.With):
+            for item in st.items:
+                v = self.eval(item.context_expr, env, fi)
+                if item.optional_vars is not None:
+                    self.assign(item.optional_vars, v, env, fi)
+            self.exec_block(st.body, env, fi)
+            return
+        if isinstance(st, ast.Try):
+            try:
+                self.exec_block(st.body, env, fi)
+            except AbsRaise as exc:
+                for h in st.handlers:
+                    tname = ast.unparse(h.type) if h.type is not None else "BaseException"
+                    kind_ = exc.what.split("(")[0].split(":")[0].strip()
+                    if tname in ("Exception", "BaseException") or kind_ in tname:
+                        if h.name:
+                            env[h.name] = exc
+                        try:
+                            self.exec_block(h.body, env, fi)
+                        except AbsRaise as inner:
+                            if inner.what == "re-raise" or (h.name and inner.what == h.name):
+                                raise exc from None
+                            raise
+                        break
+                else:
+                    raise
+            else:
+                self.exec_block(st.orelse, env, fi)
+            finally:
+                pass
+            self.exec_block(st.finalbody, env, fi)
+            return
         if isinstance(st, ast.Break):
             raise _Break()
         if isinstance(st, ast.Continue):
@@ -412,6 +449,8 @@ class Interp:
         return bool(v)
 
     def iterate(self, v: Any) -> Any:
+        if isinstance(v, Native):
+            return list(iter(v))  # type: ignore[call-overload]
         if isinstance(v, (list, tuple, set, frozenset, dict, str, range)) or hasattr(v, "__next__"):
             return v
         if isinstance(v, type({}.keys())) or isinstance(v, type({}.values())) \
@@ -691,6 +730,11 @@ class Interp:
 
     def getattr(self, obj: Any, attr: str, n: ast.AST, fi: Optional[FuncInfo]) -> Any:
         where = loc(fi.unit.path, n) if fi else ""
+        if isinstance(obj, Native):
+            try:
+                return getattr(obj, attr)
+            except AttributeError as exc:
+                raise AbsRaise(f"AttributeError: {exc}", where) from exc
         if isinstance(obj, SuperProxy):
             if obj.fi.cls is not None:
                 for c in self.pm.mro(obj.fi.cls)[1:]:
@@ -761,7 +805,10 @@ class Interp:
                                                  "ascii_uppercase", "punctuation", "whitespace"):
                 import string as _string
                 return getattr(_string, attr)
-            return ModuleRef(f"{obj.name}.{attr}")
+            full = f"{obj.name}.{attr}"
+            if full in self.native and not callable(self.native[full]):
+                return self.native[full]
+            return ModuleRef(full)
         if isinstance(obj, (str, list, dict, set, tuple)):
             return ("pymethod", obj, attr)
         if isinstance(obj, OrdInt):
@@ -856,6 +903,12 @@ class Interp:
                     raise AbsRaise(f"{type(exc).__name__} at {src(n)}", where) from exc
             raise AnalysisError("ABSINT", f"method {attr} of {type(obj).__name__} outside fragment",
                                 where)
+        if callable(f) and not isinstance(f, (AObj, ClassRef, FuncRef, BoundMethod, Lambda, ModuleRef,
+                                              EnumVal, SuperProxy)):
+            try:
+                return f(*args, **kwargs)
+            except (IndexError, KeyError) as exc:
+                raise AbsRaise(f"{type(exc).__name__} at {src(n)}", where) from exc
         if isinstance(f, ModuleRef):
             hook = self.native.get(f.name)
             if hook is not None:
@@ -867,6 +920,8 @@ class Interp:
                 where: str) -> Any:
         if name == "len":
             v = args[0]
+            if isinstance(v, Native):
+                return len(v)  # type: ignore[arg-type]
             if isinstance(v, AObj) and "_len" in v._f:
                 return v._f["_len"]
             if isinstance(v, (list, tuple, set, dict, str, frozenset)) or \
@@ -886,6 +941,10 @@ class Interp:
                             return True
                         return True
                 elif isinstance(tt, ClassRef):
+                    if isinstance(v, Native):
+                        if tt.ci.name in getattr(v, "_isa", ()):
+                            return True
+                        continue
                     if isinstance(v, AObj):
                         if v._cls == tt.ci.name:
                             return True
@@ -987,6 +1046,11 @@ class Interp:
             return abs(args[0])
         if name == "dict":
             return dict(*args, **kwargs)
+        if name == "open":
+            hook = self.native.get("builtins.open")
+            if hook is None:
+                raise AnalysisError("ABSINT", "open() outside fragment (no virtual file system)", where)
+            return hook(*args, **kwargs)
         if name == "round":
             if any(isinstance(a, OrdInt) for a in args):
                 raise AnalysisError("CARD", "round() of an ordinal", where)
@@ -1101,7 +1165,7 @@ class Interp:
 
 
 _MISSING = object()
-_BUILTINS = {"setattr", "getattr", "dir", "round", "print", "reversed", "hash", "id", "len", "any", "all", "sum", "next", "isinstance", "list", "tuple", "set", "sorted",
+_BUILTINS = {"open", "setattr", "getattr", "dir", "round", "print", "reversed", "hash", "id", "len", "any", "all", "sum", "next", "isinstance", "list", "tuple", "set", "sorted",
              "str", "bool", "int", "min", "max", "enumerate", "zip", "range", "hasattr",
              "callable", "float", "abs", "dict", "frozenset", "cast"}
 
